@@ -520,6 +520,46 @@ func runWalk(r *core.Run) {
 		cover(n, st, nil, false)
 	}
 	r.Floor("(type, field) obligations", fieldObs, 80)
+
+	// Node structs with children are only ever stored in the tree behind a pointer: Walk's arms are
+	// `case *T`, a T value boxed into IExpr/IStmt/INode would fall into `default` and hide its children.
+	boxed := map[string][]string{}
+	for _, fn := range allModuleFuncs(r) {
+		for _, b := range fn.Blocks {
+			for _, in := range b.Instrs {
+				mi, ok := in.(*ssa.MakeInterface)
+				if !ok {
+					continue
+				}
+				n, isNamed := mi.X.Type().(*types.Named)
+				if !isNamed || !w.isNodeStruct(n) {
+					continue
+				}
+				if it, isI := mi.Type().Underlying().(*types.Interface); !isI || it.NumMethods() == 0 || !types.Implements(n, it) {
+					continue
+				}
+				if mi.Type().Underlying().(*types.Interface).NumMethods() < w.inode.NumMethods() && !types.Identical(mi.Type().Underlying(), w.inode) {
+					if !types.Implements(mi.Type(), w.inode) {
+						continue // e.g. fmt.Stringer / error: not a tree slot
+					}
+				}
+				boxed[n.Obj().Name()] = append(boxed[n.Obj().Name()], "in "+fnLabel(fn))
+			}
+		}
+	}
+	nv := 0
+	for _, n := range nodeTypes {
+		name := n.Obj().Name()
+		st := n.Underlying().(*types.Struct)
+		if len(w.walkableFields(n, st)) == 0 {
+			continue
+		}
+		nv++
+		sites := boxed[name]
+		r.Check(len(sites) == 0, "node type "+name+" is boxed only as *"+name, n.Obj().Pos(), "",
+			fmt.Sprintf("a %s value (not a pointer) is converted to a node interface (%s): Walk's arm is `case *%s`, so this node is entered through `default` and its children are never visited", name, strings.Join(sites, "; "), name))
+	}
+	r.Floor("node types with children", nv, 40)
 	for k, v := range walkNotChild {
 		r.Note("definition: field %s is not a tree child: %s", k, v)
 	}
